@@ -64,7 +64,7 @@ COMPONENTS = {
     "stub": [],
 }
 TIERS = {
-    "quick": {"histories": 320, "runs": 8, "budget_s": 600, "timeout": 240, "batch": 160, "shrink_s": 40},
+    "quick": {"histories": 960, "runs": 8, "budget_s": 600, "timeout": 240, "batch": 160, "shrink_s": 40},
     "thorough": {"histories": 3000, "runs": 24, "budget_s": 840, "timeout": 300, "batch": 250, "shrink_s": 60},
 }
 
